@@ -22,7 +22,8 @@ BOUNDS = {
                 "two accepted swaps (convergence_limit=1) on chain2 and [edge,edge]; <=9 draws",
 }
 OUTSIDE = "continuations after a failed attempt are pruned as 'repeat-state' once the hook has verified that draw site, counters, working graph and " \
-          "edge set are identical to an earlier point of the same run (memoryless rejection loop; relies on the local names of rewire()); " \
+          "edge set are identical to an earlier point of the same run (memoryless rejection loop; relies on the local names of rewire(); the key also fingerprints every attribute of the rewiring object other than " \
+          "its per-proposal scratch fields, so state hidden in the object disables the pruning); " \
           "motif shapes other than 2-cliques, triangles and 4-cycles; more than 7 vertices; runs needing more RNG draws than the budget (counted as " \
           "paths_cut['budget']); the documented default depth 10*|E| itself (covered by the induction)"
 ASSUMPTIONS = ["vertex annotations are either the true motif counts or the true counts plus one extra first-topology motif per vertex (the "
